@@ -394,7 +394,18 @@ def glyph_names(ctx, repo):
     if ok:
         br = clash[0]
         wl = [n for n in ast.walk(br) if isinstance(n, ast.While)]
-        ok = len(wl) == 1 and isinstance(wl[0].test, ast.Compare) and isinstance(wl[0].test.ops[0], ast.In) and norm(wl[0].test.comparators[0]) == D and gname in norm(wl[0].test.left)
+        Dn, Gn = D, gname
+        if not wl:
+            # the search loop may have been extracted into a module helper that receives the dict and the name
+            for c in [x for x in ast.walk(br) if isinstance(x, ast.Call) and isinstance(x.func, ast.Name) and x.func.id in m.funcs]:
+                h = m.funcs[c.func.id]
+                ps = [a.arg for a in h.node.args.args]
+                bind = {norm(a): ps[i] for i, a in enumerate(c.args) if i < len(ps)}
+                if D in bind and gname in bind:
+                    wl = [n for n in ast.walk(h.node) if isinstance(n, ast.While)]
+                    Dn, Gn = bind[D], bind[gname]
+                    break
+        ok = len(wl) == 1 and isinstance(wl[0].test, ast.Compare) and isinstance(wl[0].test.ops[0], ast.In) and norm(wl[0].test.comparators[0]) == Dn and Gn in norm(wl[0].test.left)
         ctx.ob("MRG-names", f.where, f"the new spelling is searched until free (`while {norm(wl[0].test) if wl else '?'}`)", ok, "" if ok else "the re-spelt name is not checked against the names already taken")
         wb = [n for n in br.body if isinstance(n, ast.Assign) and isinstance(n.targets[0], ast.Subscript) and norm(n.targets[0].value) == perfont and norm(n.targets[0].slice) == idx and norm(n.value) == gname]
         g = CFG(fn)
